@@ -360,7 +360,8 @@ def run(ctx):
     else:
         hues = [str(h) for h in range(-720, 721)] + ["0.5", "-0.5", "359.5", "360.5", "12.25", "-33.3", "1080", "+45", "719.99", ".25"]
         sl = [str(v) for v in range(0, 101)] + ["12.5", "99.9", "0.1", "33.333"]
-    hues = [h for h in hues]
+    # far beyond one turn, but still exactly representable in a float; leading zeros; a long fraction
+    hues += ["36000", "3600090", "-100000", "123456789", "1000000000045", "-999999999999", "00090", "0000.5"]
     step = 6 if q else 12
     n = 0
     for cnt, viol in ctx.pmap(chunk_hsl, [(hues[i:i + step], sl, None) for i in range(0, len(hues), step)]):
